@@ -862,7 +862,9 @@ def rule_varshift(ctx) -> RuleResult:
         signed_scalar = any(isinstance(x, ast.Call) and norm(x.func) in ("np.int8", "np.int16", "np.int32", "np.int64", "np.int_", "np.intp")
                             for x in ast.walk(src)) if src is not None else False
         res.inst(f"_var_std_wrapper: cast dtype = {txt[:70]}: promotes against a NumPy signed scalar: {signed_scalar}", "dtype")
-        if "result_type" in txt and not signed_scalar:
+        # decided exactly by R-VARSHIFT[width] whenever the abstract dtype evaluator can express the cast (np.float64 is not a bare Python number)
+        expressible = src is not None and all(_dtype_of(src, T_, arr, {}) is not None for T_ in ("u1", "i8"))
+        if "result_type" in txt and not signed_scalar and not expressible:
             res.report("aggregate_npg._var_std_wrapper|weak-scalar-promotion", f.where(c.ast), f.qualname,
                        f"cast dtype {txt[:70]} promotes against a bare Python number: under NumPy 2 weak-scalar rules an unsigned dtype stays unsigned, "
                        "so the shift by the first element wraps for unsigned data")
@@ -1656,6 +1658,11 @@ def _np_result_type(a: str, b: str) -> str:
     """NumPy's promotion for the bool/int/float kinds used here (value-independent, NEP 50)"""
     if a == b:
         return a
+    for x, y in ((a, b), (b, a)):
+        if x == "WEAK":
+            return y
+        if x == "WEAKF":
+            return y if y[0] == "f" or y.startswith("WEAK") else "f8"
     ka, na, kb, nb = a[0], int(a[1:]), b[0], int(b[1:])
     if ka == kb:
         return f"{ka}{max(na, nb)}"
@@ -1677,6 +1684,12 @@ def _dtype_of(e, T: str, arr: str, env: dict):
         return T
     if t in _NP_SCALARS:
         return _NP_SCALARS[t]
+    if isinstance(e, ast.Constant) and isinstance(e.value, bool):
+        return "WEAK"
+    if isinstance(e, ast.Constant) and isinstance(e.value, int):
+        return "WEAK"            # a bare Python int is a weak scalar: it adopts the other operand's dtype (NEP 50)
+    if isinstance(e, ast.Constant) and isinstance(e.value, float):
+        return "WEAKF"
     if isinstance(e, ast.Name) and e.id in env:
         return _dtype_of(env[e.id], T, arr, {k: v for k, v in env.items() if k != e.id})
     if isinstance(e, ast.Call):
